@@ -120,14 +120,34 @@ def incrementalUpdate (e : Entry) (version : Int) (changes : List Change) : Outc
     | .ok code => .ok ⟨code, version⟩
     | .crash m => .crash m
 
-/-- `FileCache::update(uri, code, ver)` as called by `textDocument/didOpen` (`ver = Some(v)`) and by
-    `load_once` (`ver = None`) -/
+/-- `FileCache::update(uri, code, ver)` as called by `textDocument/didOpen` (`ver = Some(v)`: the client's text is
+    authoritative, whatever entry exists) and by `load_once` (`ver = None`: text read from disk; keeps the entry's
+    version, or 1 for a new entry) -/
 def update (e : Option Entry) (code : Doc) (ver : Option Int) : Entry :=
+  match ver, e with
+  | some v, _ => ⟨code, v⟩
+  | none, some old => ⟨code, old.ver⟩
+  | none, none => ⟨code, 1⟩
+
+/-- pinned-commit `update`: a didOpen whose version is not above the stored one was dropped ("double update") -/
+def legacyUpdate (e : Option Entry) (code : Doc) (ver : Option Int) : Entry :=
   match e, ver with
   | some old, some v => if v ≤ old.ver then old else ⟨code, v⟩
   | some old, none => ⟨code, old.ver⟩
   | none, some v => ⟨code, v⟩
   | none, none => ⟨code, 1⟩
+
+/-- the entry after `didOpen(text, v)`; `disk = some t`: the server had already loaded the file from disk
+    (`load_once`, e.g. the package entry file during the start-up workspace check) -/
+def openDoc (disk : Option Doc) (text : Doc) (v : Int) : Entry :=
+  match disk with
+  | some t => update (some (update none t none)) text (some v)
+  | none => update none text (some v)
+
+def legacyOpenDoc (disk : Option Doc) (text : Doc) (v : Int) : Entry :=
+  match disk with
+  | some t => legacyUpdate (some (legacyUpdate none t none)) text (some v)
+  | none => legacyUpdate none text (some v)
 
 /-- a `didChange` notification: document version + content changes -/
 structure Note where
